@@ -104,7 +104,7 @@ def main() -> int:
     rep = vlib.Report('C01', 'translation_validation', tier)
     ps = program_set(tier, vlib.seed())
     items = []
-    for k in ('fixed', 'exhaustive', 'conditional', 'sampled', 'illegal'):
+    for k in ('fixed', 'verbatim', 'exhaustive', 'conditional', 'sampled', 'illegal'):
         for p in ps[k]:
             items.append((p, 'plain', None))
     for p in ps['fixed'] + ps['sampled'][: (40 if tier == 'quick' else 400)]:
@@ -176,7 +176,7 @@ def finish(rep, results, tw, ps, tier, extra=None):
         'reachability_twin': twin_rep,
         'outside_claim': ['programs outside the enumerated/sampled set (the program dimension is enumerated, not solver-quantified)',
                           'scientific-notation literals', 'names used both as function and as variable',
-                          'verbatim blocks', 'named-period string indexes'],
+                          'whole-statement verbatim blocks (partial verbatim fragments are covered by three fixed programs)', 'named-period string indexes'],
     })
     if extra:
         rep.coverage.update(extra)
